@@ -144,6 +144,24 @@ pub fn family(tier: Tier) -> Vec<R> {
         out.push(R::pair(t, R::pair(t, a.clone(), b.clone()), c.clone()));
         out.push(R::pair(t, c.clone(), R::pair(t, b.clone(), a.clone())));
     }
+    // siblings forced to collide: pairs of distinct words whose own (fixed-key) hashes agree in
+    // the low 32 bits, in the high 32 bits, in the low 16 bits - wherever an implementation orders,
+    // buckets or deduplicates elements by a truncated hash, only such a pair can tell
+    for (x, y) in colliding_word_pairs() {
+        let (x, y) = (R::word(&x), R::word(&y));
+        for &t in &sym_tags {
+            out.push(R::pair(t, x.clone(), y.clone()));
+            out.push(R::pair(t, y.clone(), x.clone()));
+        }
+        for &t in &set_tags {
+            out.push(R::node(t, vec![x.clone(), y.clone()]));
+            out.push(R::node(t, vec![y.clone(), x.clone()]));
+            out.push(R::node(t, vec![x.clone(), y.clone(), a.clone()]));
+            out.push(R::node(t, vec![a.clone(), y.clone(), x.clone()]));
+        }
+        out.push(R::node(Tag::SetExt, vec![R::pair(Tag::Sim, x.clone(), y.clone()), a.clone()]));
+        out.push(R::node(Tag::SetExt, vec![a.clone(), R::pair(Tag::Sim, y.clone(), x.clone())]));
+    }
     // the same set reached through differently GROWN tables: n distinct elements, then a duplicate
     // inserted exactly when the table is full (hashbrown reserves before it looks the key up), for
     // the growth steps 3 -> 7 -> 14 -> 28; flat and as an element of another unordered compound
@@ -180,6 +198,51 @@ pub fn family(tier: Tier) -> Vec<R> {
     out
 }
 
+/// Deterministic search (no sampling: the words c0, c1, c2, ... in order, first hits kept) for
+/// pairs of distinct words whose `Term` hashes under `DefaultHasher::new()` agree in the low 32
+/// bits (3 pairs), the high 32 bits (3 pairs) and the low 16 bits (2 pairs).
+pub fn colliding_word_pairs() -> Vec<(String, String)> {
+    static PAIRS: std::sync::OnceLock<Vec<(String, String)>> = std::sync::OnceLock::new();
+    PAIRS
+        .get_or_init(|| {
+            use std::hash::{Hash, Hasher};
+            let n: u32 = 1 << 19;
+            let hs: Vec<u64> = (0..n)
+                .into_par_iter()
+                .map(|i| {
+                    let t = Term::new_word(format!("c{i}"));
+                    let mut h = std::collections::hash_map::DefaultHasher::new();
+                    t.hash(&mut h);
+                    h.finish()
+                })
+                .collect();
+            let mut out = vec![];
+            let mut find = |key: &dyn Fn(u64) -> u64, want: usize, limit: u32| {
+                let mut seen: HashMap<u64, u32> = HashMap::new();
+                let mut got = 0;
+                for i in 0..limit {
+                    let k = key(hs[i as usize]);
+                    if let Some(j) = seen.get(&k) {
+                        if hs[*j as usize] != hs[i as usize] {
+                            out.push((format!("c{j}"), format!("c{i}")));
+                            got += 1;
+                            if got == want {
+                                break;
+                            }
+                        }
+                    } else {
+                        seen.insert(k, i);
+                    }
+                }
+            };
+            find(&|h| h & 0xffff_ffff, 3, n);
+            find(&|h| h >> 32, 3, n);
+            find(&|h| h & 0xffff, 2, 4096);
+            out
+        })
+        .clone()
+}
+
 /// the same set reached through differently grown tables (see `family`)
 pub fn grown_recipes(sizes: &[usize]) -> Vec<R> {
     let set_tags: Vec<Tag> = COMPOUND_TAGS.iter().copied().filter(|t| t.shape() == Shape::Set).collect();
@@ -214,6 +277,7 @@ pub fn builds(run: &Run) -> Vec<Build> {
     let max_keys = tier.pick(64, 256);
     run.bound("order_keys_tried_per_set", json!(max_keys));
     run.count("recipes", fam.len() as u64);
+    run.count("word_pairs_with_colliding_truncated_hashes", colliding_word_pairs().len() as u64);
     let mut all: Vec<Build> = fam
         .par_iter()
         .flat_map_iter(|r| {
@@ -230,17 +294,17 @@ pub fn builds(run: &Run) -> Vec<Build> {
     // BIG_KEYS keys and in two insertion orders; sizes straddle hashbrown's growth steps
     // (3/4, 7/8, 14/15, 28/29 elements) so that differently grown tables are compared too
     let big_keys: u64 = tier.pick(6, 16);
-    run.bound("large_set_sizes", json!([5, 8, 9, 15, 16, 29, 33]));
+    run.bound("large_set_sizes", json!([5, 8, 9, 15, 16, 29, 33, 64, 65, 130]));
     run.bound("large_set_keys_each", json!(big_keys));
     let mut big: Vec<(R, Vec<u64>)> = vec![];
     for &tag in &[Tag::SetExt, Tag::Conj, Tag::IntExt] {
-        for n in [5usize, 8, 9, 15, 16, 29, 33] {
+        for n in [5usize, 8, 9, 15, 16, 29, 33, 64, 65, 130] {
             let elems: Vec<R> = (0..n).map(|i| R::word(&format!("w{i}"))).collect();
             let rev: Vec<R> = elems.iter().rev().cloned().collect();
             for k in 0..big_keys {
                 big.push((R::node(tag, elems.clone()), vec![k]));
                 big.push((R::node(tag, rev.clone()), vec![k]));
-                if n == 9 || n == 16 {
+                if n == 9 || n == 16 || n == 65 {
                     // nested: the large set as an element of a small set and of a symmetric statement
                     big.push((R::node(Tag::SetInt, vec![R::node(tag, elems.clone()), R::word("x")]), vec![k, 0]));
                     big.push((R::node(Tag::SetInt, vec![R::word("x"), R::node(tag, rev.clone())]), vec![k + 1, 1]));
